@@ -15,6 +15,7 @@ import Ctrmml.Proofs.LayoutLines2
 import Ctrmml.Proofs.LayoutDec2
 import Ctrmml.Proofs.LayoutTransfer
 import Ctrmml.Proofs.LayoutBlockLines2
+import Ctrmml.Proofs.LayoutCmd3
 import Ctrmml.Proofs.IdsBound
 import Ctrmml.Spec.Layout
 namespace Ctrmml.C06
@@ -1050,5 +1051,51 @@ example : (∀ b, Tok.blank b ∈ [Tok.cmd (.note 3 .none (.dflt 0)), .blank 32,
     · exact ⟨by decide, by simp⟩
     · exact ⟨by decide, by simp⟩
 
+
+/-! ### round 5, second part: the bare echo `\` before a blank or the end of the line
+
+`Proofs/LayoutCmd3` (namespace `L3`): `mml_echo` reads the byte behind `\` with `get_token()`, which
+skips blanks; when the first other byte starts no number (or the line ends) `read_duration` takes the
+default length there.  The bytes consumed are `countBlanks`, which for such a tail equals what
+`numSpan` skips, so `L2.lcmdSkip` is already right and only the look-ahead condition is widened:
+`L3.LCmdTail` = `L2.LCmdTail` with `EchoHead` replaced by `EchoHead ∨ (the echo is bare ∧ BareTail)`. -/
+
+open Ctrmml.MmlMeaning (Cmd) in
+/-- every round-3 look-ahead condition gives the widened one -/
+theorem C06_lcmdTail_v2_to_v3 (c : Cmd) (tail : List Nat) (h : L2.LCmdTail c tail) : L3.LCmdTail c tail :=
+  L3.lcmdTail_of_v2 c tail h
+
+open Ctrmml.MmlMeaning (Cmd) in
+/-- ONE COVERED COMMAND AT THE CURSOR under the widened look-ahead condition (the bare `\` before
+blanks or the end of the line included): the reader makes the builder call `L2.lcmdTrack` and
+consumes the spelling plus `L2.lcmdSkip` bytes, as in round 3 -/
+theorem C06_covered_step3 (f : Nat) (s : MmlState) (hs : Sane s) (cmd : Cmd) (tail : List Nat) (hc : LCovered2 cmd)
+    (hcb : s.conditionalBlock = false)
+    (hsuf : suffix s = cmd.bytes ++ tail) (hn : L2.LCmdNums (getTrack s).strip cmd) (ht : L3.LCmdTail cmd tail) :
+    parseMmlTrackF (f + 1) s =
+      parseMmlTrackF f (adv (setTrack s (L2.lcmdTrack ((getTrack s).setReference (some { line := s.inp.line, column := s.inp.lb.column })) cmd))
+        (cmd.bytes.length + L2.lcmdSkip cmd tail)) :=
+  L3.lcmd_step f s hs cmd tail hc hcb hsuf hn ht
+
+open Ctrmml.MmlMeaning (Cmd) in
+/-- A SEPARATOR SUFFICES, WITHOUT SIDE CONDITION: behind a blank, tab, `|`, `;` or the end of the line
+the look-ahead condition `L3.LCmdTail` of EVERY command holds over `LCovered2` — `C06_separator_suffices2`
+without its hypothesis on the echo -/
+theorem C06_separator_suffices3 (t : Track) (cmd : Cmd) (hn : L2.LCmdNums t cmd) (ts : List Tok) (e : List Nat) (hok : L2.ToksOk ts e)
+    (hcov : ∀ c ∈ cmdsOf ts, LCovered2 c) (he : EndOk e) (hts : ∀ c ts', ts ≠ Tok.cmd c :: ts') :
+    L3.LCmdTail cmd (toksText ts e) :=
+  L3.cmdTail_of_sep t cmd hn ts e hok hcov he hts
+
+open Ctrmml.MmlMeaning (Cmd) in
+/-- the case `C06_bare_echo_separator_counterexample` excludes from `L2.LCmdTail` is inside `L3.LCmdTail` -/
+example : L3.LCmdTail (Cmd.echo (.dflt 0)) (toksText [.blank 32, .cmd (.note 2 .none (.dflt 0))] []) :=
+  C06_separator_suffices3 (Track.new 24) (Cmd.echo (.dflt 0)) trivial _ [] (by decide) (fun c hc => by simp [cmdsOf] at hc; subst hc; decide) (Or.inl rfl)
+    (fun c ts' h => by cases h)
+
+/-- … and the model evaluated on `AB o4 \ c` / `B o4\`, ` c` accepts both and gives B the same events -/
+example :
+    ((outcome ["AB o4 \\ c"]).2.lookup 1) = ((outcome ["B o4\\", " c"]).2.lookup 1) ∧ (outcome ["AB o4 \\ c"]).1 = none ∧
+    (outcome ["B o4\\", " c"]).1 = none := by
+  decide +kernel
 
 end Ctrmml.C06
